@@ -90,10 +90,12 @@ def sensitivity(a):
             p = subprocess.run([sys.executable, CHECK, prop, '--tier', 'quick', '--no-evidence', '--no-minimise'], env=env, capture_output=True, text=True, cwd=VERIF_DIR)
             sigs = [ln.strip() for ln in p.stdout.splitlines() if ln.startswith('  [')]
             ok = p.returncode == 1
+            import re
+            hits = sum(int(m.group(1)) for ln in sigs for m in [re.search(r'\] x(\d+) ', ln)] if m)
             rows.append((sid, prop, ok, time.time() - t0))
             exp = meta.get('expected_miss', False)
             print('selftest-sensitivity %s (%s): exit %d in %.0fs -> %s  %s' % (sid, prop, p.returncode, time.time() - t0,
-                  'detected' if ok else ('missed (documented as expected: %s)' % meta.get('why_missed', '')[:80] if exp else 'MISSED'), sigs[0][:160] if sigs else ''))
+                  ('detected in %d runs' % hits) if ok else ('missed (documented as expected: %s)' % meta.get('why_missed', '')[:80] if exp else 'MISSED'), sigs[0][:160] if sigs else ''))
             if not ok and not exp:
                 bad += 1
         finally:
